@@ -191,7 +191,7 @@ pub struct Expected {
 /// decision table of the property
 pub fn expected(c: &Config) -> Expected {
     let mut codes: Vec<i32> = vec![];
-    let mut fail = |code: i32, codes: &mut Vec<i32>| {
+    let fail = |code: i32, codes: &mut Vec<i32>| {
         if !codes.contains(&code) {
             codes.push(code);
         }
@@ -199,7 +199,7 @@ pub fn expected(c: &Config) -> Expected {
     let mut ok_possible = true;
     // numeric parameters: option > metadata > default; invalid in the origin that decides -> 65;
     // an invalid metadata value next to a valid option may be refused as well (65) or ignored
-    let mut numeric = |opt: &Given, meta: &Given, default: f32, codes: &mut Vec<i32>, ok_possible: &mut bool| -> (f32, &'static str, bool) {
+    let numeric = |opt: &Given, meta: &Given, default: f32, codes: &mut Vec<i32>, ok_possible: &mut bool| -> (f32, &'static str, bool) {
         let mut optional_65 = false;
         let r = match (opt, meta) {
             (Given::Invalid(_), _) => {
@@ -226,7 +226,7 @@ pub fn expected(c: &Config) -> Expected {
     let (area, area_o, a65) = numeric(&c.area_opt, &c.area_meta, 1.0, &mut codes, &mut ok_possible);
     let (kexp, kexp_o, k65) = numeric(&c.kexp_opt, &c.kexp_meta, 0.0, &mut codes, &mut ok_possible);
     // RED1 / RED2: option > metadata > file value > default
-    let mut red = |opt: &Given, meta: &Given, codes: &mut Vec<i32>, ok_possible: &mut bool| -> (Option<([f32; 3], &'static str)>, bool) {
+    let red = |opt: &Given, meta: &Given, codes: &mut Vec<i32>, ok_possible: &mut bool| -> (Option<([f32; 3], &'static str)>, bool) {
         match (opt, meta) {
             (Given::Invalid(_), _) => {
                 fail(65, codes);
